@@ -82,6 +82,15 @@ Theorem correct_implies_complete :
 Proof. exact correct_readable. Qed.
 Print Assumptions correct_implies_complete.
 
+(* Snapshot files: the abstract state keeps only their root ids and whether every snapshot file is
+   named by the hash of its contents; a mismatch (a snapshot file replaced by or swapped with
+   another one) is always reported (since the fix `check: verify snapshot file names`). *)
+Theorem snapshot_name_mismatch_is_reported :
+  forall (B : Type) (hash : B -> id) (blen : B -> N) (parse : B -> option tree) (st : state B) fuel,
+    st_snap_names_ok st = false -> check B hash blen parse st fuel <> Some [].
+Proof. exact snap_name_reported. Qed.
+Print Assumptions snapshot_name_mismatch_is_reported.
+
 (* With a collision-free hash, "hashes to its id" is "is the content stored under that id". *)
 Theorem hash_fixes_content :
   forall (B : Type) (hash : B -> id),
